@@ -35,6 +35,40 @@ def apply_edit(root, rel, old, new):
         with open(path, 'w', newline='') as f:
             f.write(ast.unparse(ast.parse(raw)) + '\n')
         return True
+    if isinstance(old, tuple) and old[0] == 'alias_recv':
+        # ('alias_recv', lineno, col): in the simple statement at that position the first call on a `self.<attr>[.<attr>]` receiver goes through a new
+        # local: `_al = self.x.y` ; `_al.m(...)`
+        import ast
+        tree = ast.parse(raw)
+        done = False
+        for parent in ast.walk(tree):
+            for field in ('body', 'orelse', 'finalbody'):
+                lst = getattr(parent, field, None)
+                if not isinstance(lst, list) or done:
+                    continue
+                for i, st in enumerate(lst):
+                    if isinstance(st, ast.stmt) and (st.lineno, st.col_offset) == (old[1], old[2]) and isinstance(st, (ast.Expr, ast.Assign, ast.Return, ast.AugAssign)):
+                        for n in ast.walk(st):
+                            if isinstance(n, ast.Call) and isinstance(n.func, ast.Attribute):
+                                v = n.func.value
+                                chain = v
+                                ok = False
+                                while isinstance(chain, ast.Attribute):
+                                    chain = chain.value
+                                    ok = True
+                                if ok and isinstance(chain, ast.Name) and chain.id == 'self':
+                                    alias = ast.Assign(targets=[ast.Name(id='_al', ctx=ast.Store())], value=v)
+                                    n.func.value = ast.Name(id='_al', ctx=ast.Load())
+                                    lst.insert(i, alias)
+                                    done = True
+                                    break
+                        break
+        if not done:
+            return False
+        ast.fix_missing_locations(tree)
+        with open(path, 'w', newline='') as f:
+            f.write(ast.unparse(tree) + '\n')
+        return True
     if isinstance(old, tuple) and old[0] == 'extract_stmt':
         # ('extract_stmt', lineno, col): the simple statement at that position (it only mentions self and module-level names) is moved into a new
         # method of the same class and replaced by a call of it
